@@ -1157,7 +1157,14 @@ class OFConnection (object):
         io_worker.consume_receive_buf(message_length)
         continue
 
-      new_offset, msg_obj = self.unpackers[ofp_type](message, 0)
+      try:
+        new_offset, msg_obj = self.unpackers[ofp_type](message, 0)
+      except Exception:
+        # The decoder gives up when the lengths in a message don't add up
+        # (e.g., a fixed-size request with the wrong length in its header).
+        # That's a bad request, not a reason to lose the connection.
+        self.log.exception('Could not unpack message of type %s', ofp_type)
+        new_offset, msg_obj = None, None
       if new_offset != message_length:
         info = (msg_obj, message_length, new_offset)
         r = self._error_handler(self.ERR_BAD_LENGTH, info)
